@@ -141,7 +141,10 @@ impl LeafH {
             if !failing || script.partial {
                 lib(|| {
                     if !script.hdr.is_empty() {
-                        r.header(&script.hdr);
+                        // a multi-level response header is built level by level (the unit inserts the ':')
+                        for part in script.hdr.split(|c| *c == b':') {
+                            r.header(part);
+                        }
                     }
                     for it in &script.items {
                         write_item(&mut r, it);
